@@ -5,9 +5,14 @@
    exception shapes `docShapes`.  Helper lemmas: Lemmas/C20.lean.  Tie: correspondence run of checks/c20.py against the
    real `write_XML_file`, read back with libxml2's tree API.
 
-   Full-strength statement (NOT provable: the unchanged writer violates it, see the witnesses below):
-     theorem C20_full (d : WDoc) : (writeXml d).map readGraph = some (graphOf d)                                   -/
+   The writer model is parameterised by `WCfg` (is a probability label / the controllable attribute / are branchpoints
+   written); `cfgOfSource` is computed from the tables generated from the current xmlwriter.cpp, so the theorems below hold
+   for the unchanged writer (all three false) as well as for a repaired one.
+
+   Full-strength statement (NOT provable for the unchanged writer, see the witnesses below):
+     theorem C20_full (d : WDoc) : (writeXml cfgOfSource d).map readGraph = some (graphOf cfgOfSource d)           -/
 import UtapModel.Lemmas.C20
+import UtapModel.Model.XmlWriteCfg
 namespace UtapModel.AM
 
 /-- a document using everything the writer handles: named locations, invariant (as the type checker stores it) and
@@ -28,102 +33,45 @@ def sampleDoc : WDoc :=
                { src := .loc 2, dst := .loc 2, ctrl := true, select := [], guard := some .one, sync := some (.plain "ch[2]?"),
                  assign := some .one, prob := some .one }] }] }
 
-example : docShapes sampleDoc = [] := by decide
+example : docShapes cfgOfSource sampleDoc = [] := by decide
+example : ∀ a b c : Bool, docShapes ⟨a, b, c⟩ sampleDoc = [] := by decide
 
 /-- **C20 (outside the exception shapes).**  For every document none of whose edges / templates has one of the computed
     shapes, the writer does not crash and an independent reader of the written tree finds exactly the document's graph:
     per template one location element per location (id `id<nr>`, name, invariant and rate label, urgent / committed),
     one init reference to the initial location, one transition per edge in order with the ids of its endpoints, the
     controllable flag and the select / guard / synchronisation / assignment labels carrying the non-trivial texts. -/
-theorem C20_partial (d : WDoc) (h : docShapes d = []) : (writeXml d).map readGraph = some (graphOf d) := by
+theorem C20_partial (c : WCfg) (d : WDoc) (h : docShapes c d = []) :
+    (writeXml c d).map readGraph = some (graphOf c d) := by
   simp only [docShapes, List.append_eq_nil_iff, List.flatMap_eq_nil_iff] at h
   obtain ⟨h, hp⟩ := h
   have hpc : d.procs.any procCrash = false := by
     cases hc : d.procs.any procCrash with
     | false => rfl
     | true => simp [hc] at hp
-  have hok : ∀ t ∈ d.templs, TemplOk t := fun t ht => templOk_of t (h t ht)
-  have hall := allSome_map_some wTempl wTempl' d.templs (fun t ht => wTempl_ok t (hok t ht))
+  have hok : ∀ t ∈ d.templs, TemplOk c t := fun t ht => templOk_of c t (h t ht)
+  have hall := allSome_map_some (wTempl c) (wTempl' c) d.templs (fun t ht => wTempl_ok c t (hok t ht))
   simp only [writeXml, hpc, Bool.false_eq_true, ↓reduceIte, hall, Option.map_some, readGraph, graphOf, List.filterMap_append]
-  have hts : (d.templs.map wTempl').filterMap templF = d.templs.map gtemplOf := by
+  have hts : (d.templs.map (wTempl' c)).filterMap templF = d.templs.map (gtemplOf c) := by
     apply filterMap_map_some
     intro t ht
-    obtain ⟨k, hk, hg⟩ := gTempl_wTempl t (hok t ht)
+    obtain ⟨k, hk, hg⟩ := gTempl_wTempl c t (hok t ht)
     simp [hk, templF, hg]
   simp [hts, templF, List.filterMap_cons]
 
-theorem allSome_eq_none_iff {α} (l : List (Option α)) : allSome l = none ↔ none ∈ l := by
-  induction l with
-  | nil => simp [allSome]
-  | cons x r ih =>
-    cases x with
-    | none => simp [allSome]
-    | some a => simp [allSome, ih]
-
-theorem mem_ite_singleton {α} (c : Prop) [Decidable c] (a b : α) : a ∈ (if c then [b] else []) ↔ c ∧ a = b := by
-  by_cases h : c <;> simp [h]
-
-theorem selShapes_only (select : List WSel) (x : Shape) (hx : x ≠ Shape.selectTypeDropped) : x ∉ selShapes select := by
-  cases select with
-  | nil => simp [selShapes]
-  | cons s r => cases hn : s.named <;> simp [selShapes, hn, hx]
-
-theorem bp_mem_edgeShapes (e : WEdge) : Shape.branchpointEndpoint ∈ edgeShapes e ↔ wEdge e = none := by
-  obtain ⟨src, dst, ctrl, select, guard, sync, assign, prob⟩ := e
-  have h1 := selShapes_only select Shape.branchpointEndpoint (by decide)
-  simp only [edgeShapes, List.mem_append, mem_ite_singleton, h1, or_false]
-  cases src <;> cases dst <;> simp [wEdge]
-
-theorem noInit_not_mem_edgeShapes (e : WEdge) : Shape.noInit ∉ edgeShapes e := by
-  obtain ⟨src, dst, ctrl, select, guard, sync, assign, prob⟩ := e
-  have h1 := selShapes_only select Shape.noInit (by decide)
-  simp only [edgeShapes, List.mem_append, mem_ite_singleton, h1, or_false]
-  cases src <;> cases dst <;> simp
-
-theorem wTempl_eq_none_iff (t : WTempl) :
-    wTempl t = none ↔ Shape.branchpointEndpoint ∈ templShapes t ∨ Shape.noInit ∈ templShapes t := by
-  have hE : allSome (t.edges.map wEdge) = none ↔ ∃ e ∈ t.edges, wEdge e = none := by
-    rw [allSome_eq_none_iff]; simp [List.mem_map]
-  have hb : Shape.branchpointEndpoint ∈ templShapes t ↔ ∃ e ∈ t.edges, wEdge e = none := by
-    simp only [templShapes, List.mem_append, List.mem_flatMap, mem_ite_singleton, bp_mem_edgeShapes]
-    simp
-  have hn : Shape.noInit ∈ templShapes t ↔ t.init = none := by
-    simp only [templShapes, List.mem_append, List.mem_flatMap, mem_ite_singleton]
-    constructor
-    · rintro ((⟨e, _, he⟩ | h) | h)
-      · exact absurd he (noInit_not_mem_edgeShapes e)
-      · simp at h
-      · simpa using h.1
-    · intro h; right; simp [h]
-  rw [hb, hn, ← hE]
-  cases hi : t.init with
-  | none => simp [wTempl, hi]
-  | some i =>
-    cases ha : allSome (t.edges.map wEdge) with
-    | none => simp [wTempl, hi, ha]
-    | some es => simp [wTempl, hi, ha]
-
 /-- **C20, crashes.**  The writer dereferences a null pointer exactly when some edge starts or ends in a branchpoint
     or some template has no initial location. -/
-theorem unbound_not_mem_templShapes (t : WTempl) : Shape.unboundProcess ∉ templShapes t := by
-  simp only [templShapes, List.mem_append, List.mem_flatMap, mem_ite_singleton, not_or, not_exists, not_and]
-  refine ⟨⟨?_, by simp⟩, by simp⟩
-  intro e _
-  obtain ⟨src, dst, ctrl, select, guard, sync, assign, prob⟩ := e
-  have h1 := selShapes_only select Shape.unboundProcess (by decide)
-  simp only [edgeShapes, List.mem_append, mem_ite_singleton, h1, or_false]
-  cases src <;> cases dst <;> simp
-
-theorem C20_crash_iff (d : WDoc) :
-    writeXml d = none ↔ Shape.branchpointEndpoint ∈ docShapes d ∨ Shape.noInit ∈ docShapes d ∨ Shape.unboundProcess ∈ docShapes d := by
-  have hu : Shape.unboundProcess ∈ docShapes d ↔ d.procs.any procCrash = true := by
+theorem C20_crash_iff (c : WCfg) (d : WDoc) :
+    writeXml c d = none ↔
+      Shape.branchpointEndpoint ∈ docShapes c d ∨ Shape.noInit ∈ docShapes c d ∨ Shape.unboundProcess ∈ docShapes c d := by
+  have hu : Shape.unboundProcess ∈ docShapes c d ↔ d.procs.any procCrash = true := by
     simp only [docShapes, List.mem_append, List.mem_flatMap, mem_ite_singleton, and_true]
     constructor
     · rintro (⟨t, _, h⟩ | h)
-      · exact absurd h (unbound_not_mem_templShapes t)
+      · exact absurd h (unbound_not_mem_templShapes c t)
       · exact h
     · intro h; exact Or.inr h
-  have hb : ∀ s, s ≠ Shape.unboundProcess → (s ∈ docShapes d ↔ ∃ t ∈ d.templs, s ∈ templShapes t) := by
+  have hb : ∀ s, s ≠ Shape.unboundProcess → (s ∈ docShapes c d ↔ ∃ t ∈ d.templs, s ∈ templShapes c t) := by
     intro s hs
     simp only [docShapes, List.mem_append, List.mem_flatMap, mem_ite_singleton]
     constructor
@@ -135,22 +83,22 @@ theorem C20_crash_iff (d : WDoc) :
   cases hc : d.procs.any procCrash with
   | true => simp [writeXml, hc]
   | false =>
-    have h1 : writeXml d = none ↔ ∃ t ∈ d.templs, wTempl t = none := by
+    have h1 : writeXml c d = none ↔ ∃ t ∈ d.templs, wTempl c t = none := by
       simp only [writeXml, hc, Bool.false_eq_true, ↓reduceIte, Option.map_eq_none_iff, allSome_eq_none_iff, List.mem_map]
     rw [h1]
     simp only [Bool.false_eq_true, or_false]
     constructor
     · rintro ⟨t, ht, h⟩
-      rcases (wTempl_eq_none_iff t).mp h with h | h
+      rcases (wTempl_eq_none_iff c t).mp h with h | h
       · exact Or.inl ⟨t, ht, h⟩
       · exact Or.inr ⟨t, ht, h⟩
     · rintro (⟨t, ht, h⟩ | ⟨t, ht, h⟩)
-      · exact ⟨t, ht, (wTempl_eq_none_iff t).mpr (Or.inl h)⟩
-      · exact ⟨t, ht, (wTempl_eq_none_iff t).mpr (Or.inr h)⟩
+      · exact ⟨t, ht, (wTempl_eq_none_iff c t).mpr (Or.inl h)⟩
+      · exact ⟨t, ht, (wTempl_eq_none_iff c t).mpr (Or.inr h)⟩
 
 /-- **C20, ids.**  The location ids the writer emits are unique within a template. -/
-theorem C20_ids_unique (t : WTempl) : ((gtemplOf t).locs.map (·.id)).Nodup := by
-  have h : (gtemplOf t).locs.map (·.id) = (List.range t.locs.length).map (fun i => some (idOf i)) := by
+theorem C20_ids_unique (c : WCfg) (t : WTempl) : ((gtemplOf c t).locs.map (·.id)).Nodup := by
+  have h : (gtemplOf c t).locs.map (·.id) = (List.range t.locs.length).map (fun i => some (idOf i)) := by
     simp only [gtemplOf, List.map_map]
     apply List.ext_getElem
     · simp
@@ -185,7 +133,32 @@ def witness : Shape → WDoc
 /-- every shape occurs in its witness, and on the witness the written graph differs from the document's graph
     (or the writer crashes) -/
 theorem C20_witness (s : Shape) :
-    s ∈ docShapes (witness s) ∧ (writeXml (witness s)).map readGraph ≠ some (graphOf (witness s)) := by
+    s ∈ docShapes ⟨false, false, false⟩ (witness s) ∧
+    (writeXml ⟨false, false, false⟩ (witness s)).map readGraph ≠ some (graphOf ⟨false, false, false⟩ (witness s)) := by
   cases s <;> decide
+
+/-- the shapes that the writer of the *current* source has: computed from the generated tables -/
+def sourceShapes : List Shape := (List.map (fun s => (s, docShapes cfgOfSource (witness s))) [Shape.probabilityDropped,
+  .selectBindingsDropped, .selectTypeDropped, .controllableDropped, .branchpointEndpoint, .urgentAndCommitted, .noInit,
+  .unboundProcess]).filterMap fun p => if p.2.contains p.1 then some p.1 else none
+
+/-! ### tie to the current source (tables generated by translate/xml_tables.py) -/
+
+def allLabelsEdge : WEdge :=
+  { src := .loc 0, dst := .loc 0, ctrl := false, select := [{ id := "i", ty := "T", named := true }], guard := some (.plain "g"),
+    sync := some (.plain "s"), assign := some (.plain "a"), prob := some (.plain "p") }
+
+def allLabelsLoc : WLoc := { name := "L", inv := some (.plain "i"), rate := some (.plain "r"), urgent := false, committed := false }
+
+/-- the label kinds the model writes, in order, are exactly the `label("kind", ..)` calls of `XMLWriter::labels` and
+    `XMLWriter::location`; the attributes of a transition are those of `XMLWriter::transition`; `XMLWriter::label`
+    skips "1" and strips "1 && "; only `select[0]` is written -/
+theorem C20_tables :
+    ((wEdgeLabels cfgOfSource allLabelsEdge).filterMap lblF).map (·.1) = Gen.XmlTables.writerEdgeLabels ∧
+    ((wLocKids (allLabelsLoc, 0)).filterMap lblF).map (·.1) = Gen.XmlTables.writerLocLabels ∧
+    (wEdgeAttrs cfgOfSource allLabelsEdge).map (·.1) = Gen.XmlTables.writerTransitionAttributes ∧
+    Gen.XmlTables.writerSkips = ["1"] ∧ Gen.XmlTables.writerStrips = ["1 && "] ∧
+    Gen.XmlTables.writerSelectAll = false := by
+  decide
 
 end UtapModel.AM
